@@ -7,7 +7,7 @@ Matches(x, r) == \A k \in DOMAIN x : k \in DOMAIN r /\ r[k] = x[k]
 Is(k) == l <= Len(Rec) /\ E.e = k /\ l' = l + 1
 TInit == InitWith([max |-> 0, pol |-> "none", b0 |-> 1, cap |-> 1, retryOn |-> 1, pred |-> "all"]) /\ ev = [e |-> "init"] /\ l = 1
 TReset == Is("reset") /\ Reset(E.cfg)
-TCreate == Is("create") /\ Create(E.c) /\ Matches(ev', E)
+TCreate == Is("create") /\ (Create(E.c) \/ CreateDeferred(E.c)) /\ Matches(ev', E)
 TPoll == Is("poll") /\ PollAny(E.c) /\ Matches(ev', E) /\ ConnOK(E.conn)
 TComplete == Is("complete") /\ Complete(E.c, E.out) /\ Matches(ev', E)
 TDrop == Is("drop") /\ Drop(E.c) /\ Matches(ev', E)
